@@ -48,6 +48,9 @@ CLAIMED = {
  "C15": ("exploration", "differential monitor against a strict reference RESP parser/encoder",
    "Generated values and pipelines, every 1-cut split of short streams plus random k-cut splits, through all eight decoder entry points (incl. RespCodec under FramedRead and the paired multi codec) and seven encoder entry points; negative inputs judged by the reference parser.",
    "section 2, C15"),
+ "C16": ("exploration", "out-of-process crash / panic / CPU-budget / RSS monitor with a canary connection",
+   "The real ServerProxyService in a child process is fed a hostile corpus (raw RESP with extreme length prefixes and nesting, every command family with extreme/missing/non-UTF-8 arguments) before and after metadata; the parent watches exit status, a panic marker file, reply-or-close against the child's CPU time, peak RSS and a canary connection.",
+   "section 2, C16"),
  "C17": ("exploration", "round-trip monitor over captured coordinator traffic + structure-aware mutation of wire encodings",
    "Every distinct broker per-proxy view is pushed through the coordinator's real sender and the proxy's real parsers; generated values round-trip through both encodings; all truncations/deletions/corruptions of role-annotated argument vectors are classified (rejected / accepted-equal / accepted-different by class signature).",
    "section 2, C17"),
